@@ -101,6 +101,14 @@ class Check:
                 construct = where._module.segment(where)[:400]
             except Exception:
                 construct = None
+        if verdict == VIOLATED and not isinstance(where, tuple):
+            # the analyser's model has a boundary: inside a function that uses constructs it does not interpret (functions
+            # passed as values, functools / itertools / operator combinators, structural pattern matching it could not
+            # normalise) a mismatch is "cannot decide", never a claimed violation
+            why = outside_model(where)
+            if why:
+                verdict = UNDECIDED
+                detail = f"[not decided: the function uses {why}, which is outside the analyser's model] {detail}"
         inst = Instance(kind, name, rel, func, line, verdict, detail, expected, found, construct, armed, nontrivial)
         self.instances.append(inst)
         self.analysed_modules.add(rel)
@@ -171,6 +179,73 @@ class Check:
 
 
 # ---------------------------------------------------------------------------------------
+
+
+_COMBINATOR_MODULES = {"functools", "itertools", "operator"}
+_MODELLED_CALLABLE_ARGS = {"key"}  # lambda / function as sort / min / max key
+
+
+def outside_model(node):
+    """A reason string if the function enclosing `node` contains constructs the term reconstruction does not interpret."""
+    from .loader import enclosing_function
+
+    fn = node if isinstance(node, (ast.FunctionDef, ast.AsyncFunctionDef)) else enclosing_function(node)
+    while fn is not None and isinstance(fn, ast.Lambda):
+        fn = enclosing_function(fn)
+    # a nested closure: judge the outermost function
+    outer = fn
+    while outer is not None:
+        up = enclosing_function(outer)
+        if up is None or isinstance(up, ast.Lambda):
+            break
+        outer = up
+    fn = outer
+    if fn is None:
+        return None
+    cached = getattr(fn, "_hv_outside_model", False)
+    if cached is not False:
+        return cached
+    why = None
+    mod = getattr(fn, "_module", None)
+    comb_names = set()
+    if mod is not None:
+        for st in ast.walk(mod.tree):
+            if isinstance(st, ast.ImportFrom) and st.module and st.module.split(".")[0] in _COMBINATOR_MODULES:
+                comb_names |= {a.asname or a.name for a in st.names}
+            elif isinstance(st, ast.Import):
+                for a in st.names:
+                    if a.name.split(".")[0] in _COMBINATOR_MODULES:
+                        comb_names.add((a.asname or a.name).split(".")[0] + ".")
+    comb_names -= {"lru_cache", "cached_property", "cache", "wraps", "total_ordering"}
+    keyword_values = set()
+    for n in ast.walk(fn):
+        if isinstance(n, ast.keyword) and n.arg in _MODELLED_CALLABLE_ARGS:
+            keyword_values.add(id(n.value))
+    for n in ast.walk(fn):
+        if n is fn:
+            continue
+        if isinstance(n, (ast.FunctionDef, ast.AsyncFunctionDef)):
+            why = f"a nested function `{n.name}` used as a value"
+            break
+        if isinstance(n, ast.Lambda) and id(n) not in keyword_values:
+            why = "a lambda used as a value"
+            break
+        if getattr(ast, "Match", None) is not None and isinstance(n, ast.Match):
+            why = "a match statement"
+            break
+        if isinstance(n, ast.Call):
+            f = n.func
+            if isinstance(f, ast.Name) and f.id in comb_names:
+                why = f"the combinator `{f.id}`"
+                break
+            if isinstance(f, ast.Attribute) and isinstance(f.value, ast.Name) and (f.value.id + ".") in comb_names:
+                why = f"the combinator `{f.value.id}.{f.attr}`"
+                break
+    try:
+        fn._hv_outside_model = why
+    except Exception:
+        pass
+    return why
 
 
 def load_known():
